@@ -14,6 +14,7 @@ pub mod c12;
 pub mod c13;
 pub mod c16;
 pub mod c18;
+pub mod c19;
 pub mod values;
 pub mod common;
 pub mod predicates;
@@ -33,6 +34,7 @@ pub fn lookup(id: &str) -> Option<Box<dyn Property + Send>> {
         "C13" => Some(Box::new(c13::C13)),
         "C16" => Some(Box::new(c16::C16)),
         "C18" => Some(Box::new(c18::C18)),
+        "C19" => Some(Box::new(c19::C19)),
         _ => None,
     }
 }
